@@ -329,3 +329,89 @@ func (p *Program) DumpSites(fn *ssa.Function) {
 		fmt.Printf("  {Kind: %q, Target: %q, Args: []string{%s}, Guards: []string{%s}}, // %s\n", s.Kind, s.Target, q(s.Args), q(s.Guards), p.Pos(s.Instr.Pos()))
 	}
 }
+
+// CallerSpec is one reviewed call site of a designated callee, anywhere in
+// the module: the calling function (closures by their own name), the callee
+// and the canonical argument terms ("*" = any).
+type CallerSpec struct {
+	Fn     string
+	Target string
+	Args   []string
+	N      int // number of such sites in Fn (default 1)
+	Why    string
+}
+
+func inTesting(fn *ssa.Function) bool {
+	return fn.Pkg != nil && strings.Contains(fn.Pkg.Pkg.Path(), "/testing/")
+}
+
+// CheckCallers: closed world over the whole module (test harness packages
+// excluded) - every call of one of the targets is one of the reviewed sites
+// with exactly the reviewed arguments, and every reviewed site exists.
+func (c *Ctx) CheckCallers(rule string, targets []string, specs []CallerSpec) {
+	isT := map[string]bool{}
+	for _, t := range targets {
+		isT[t] = true
+	}
+	counts := make([]int, len(specs))
+	for _, fn := range c.P.Funcs {
+		if inTesting(fn) || len(CallsIn(fn, func(n string) bool { return isT[n] })) == 0 {
+			continue
+		}
+		for _, s := range Sites(fn) {
+			if !(s.Kind == "call" || s.Kind == "defer" || s.Kind == "go") || !isT[s.Target] {
+				continue
+			}
+			name := FuncName(fn)
+			matched := false
+			for i, sp := range specs {
+				if sp.Fn != name || sp.Target != s.Target || len(sp.Args) != len(s.Args) {
+					continue
+				}
+				ok := true
+				for j, a := range sp.Args {
+					if a != "*" && a != s.Args[j] {
+						ok = false
+					}
+				}
+				if ok {
+					counts[i]++
+					matched = true
+					c.Ok(rule, name+"/"+s.Kind+":"+s.Target+"("+strings.Join(s.Args, ", ")+")", c.pos(s.Instr), "reviewed call site: "+sp.Why)
+					break
+				}
+			}
+			if !matched {
+				c.Bad(rule, name+"/"+s.Kind+":"+s.Target+"("+strings.Join(s.Args, ", ")+")/unreviewed", c.pos(s.Instr), "call of "+s.Target+" with arguments that no reviewed site has (new caller, or an argument now comes from somewhere else)")
+			}
+		}
+	}
+	for i, sp := range specs {
+		want := sp.N
+		if want == 0 {
+			want = 1
+		}
+		if counts[i] != want {
+			c.Bad(rule, sp.Fn+"/spec:"+sp.Target+"("+strings.Join(sp.Args, ", ")+")/count", "", fmt.Sprintf("expected %d such call sites, found %d: %s", want, counts[i], sp.Why))
+		}
+	}
+}
+
+// DumpCallers prints CallerSpec literals for every call of callees whose name contains sub.
+func (p *Program) DumpCallers(sub string) {
+	for _, fn := range p.Funcs {
+		if inTesting(fn) {
+			continue
+		}
+		for _, s := range Sites(fn) {
+			if !(s.Kind == "call" || s.Kind == "defer" || s.Kind == "go") || !strings.Contains(s.Target, sub) {
+				continue
+			}
+			var o []string
+			for _, x := range s.Args {
+				o = append(o, fmt.Sprintf("%q", x))
+			}
+			fmt.Printf("\t\t{Fn: %q, Target: %q, Args: []string{%s}, Why: \"\"}, // %s\n", FuncName(fn), s.Target, strings.Join(o, ", "), p.Pos(s.Instr.Pos()))
+		}
+	}
+}
